@@ -188,7 +188,17 @@ func Strings(r *evid.Run, alpha [][]byte, maxLen int, mk func(w *Worker) func(s 
 		f := mk(w)
 		buf := make([]byte, 0, 64)
 		var rec func(depth int)
+		calls, stop := 0, false
 		rec = func(depth int) {
+			if stop {
+				return
+			}
+			if calls++; calls&1023 == 0 && r.Expired() {
+				// the internal deadline also ends a shard in the middle (a shard of a long view can run for minutes)
+				stop = true
+				r.NotExhaustive("internal deadline reached inside an enumeration shard")
+				return
+			}
 			f(buf)
 			w.Beat()
 			if depth == maxLen {
